@@ -2458,6 +2458,29 @@ async fn handle_stun_request(
             );
             return;
         }
+        // USERNAME is "<our ufrag>:<peer's ufrag>". The peer's half is checked as soon
+        // as the peer's parameters are known (checks may arrive before the answer): a
+        // request that names another peer fragment - a forked offer, an earlier
+        // generation of the peer - is not this session's.
+        let remote_ufrag = inner
+            .remote_parameters
+            .lock()
+            .as_ref()
+            .map(|p| p.username_fragment.clone());
+        if let Some(expected) = remote_ufrag.as_deref() {
+            let theirs = msg
+                .username
+                .as_deref()
+                .and_then(|u| u.split_once(':'))
+                .map(|(_, theirs)| theirs);
+            if theirs != Some(expected) {
+                debug!(
+                    "Ignoring Binding request from {}: USERNAME names another peer fragment",
+                    addr
+                );
+                return;
+            }
+        }
     }
 
     note_peer_alive(&inner);
